@@ -189,7 +189,7 @@ func TestProp_Listener(t *testing.T) {
 					return rapid.SampledFrom(all).Draw(t, label)
 				}
 				// at most a few deviations from an honest client
-				v.Cert = pick("cert", "own-chain-1", []string{"own-chain-0", "own-chain-1", "own-chain-1", "foreign-root", "self-signed", "server-auth", "other-node-chain", "none"})
+				v.Cert = pick("cert", "own-chain-1", []string{"own-chain-0", "own-chain-1", "own-chain-1", "foreign-root", "self-signed", "server-auth", "other-node-chain", "none", "stranger-self-signed-then-victim-chain"})
 				if honest && rootState != "current-expired" {
 					v.Cert = rapid.SampledFrom([]string{"own-chain-0", "own-chain-1"}).Draw(t, "honestChain")
 				}
@@ -311,6 +311,16 @@ func TestProp_Listener(t *testing.T) {
 					k, _ := x509.ParsePKCS8PrivateKey(resp.CertificatePrivateKeyPkcs8)
 					b := resp.CertificateBundles[1]
 					chain, key = [][]byte{b.CertificateDer, b.CaCertificateDer}, k.(ed25519.PrivateKey)
+				case "stranger-self-signed-then-victim-chain":
+					// the certificate TLS proves possession of is certificate 0: a stranger's
+					// self-signed one; the victim's genuine leaf and CA merely follow it in the
+					// certificate message (anybody who saw them on the wire can append them)
+					_, sk, _ := ed25519.GenerateKey(rand.Reader)
+					spub := sk.Public().(ed25519.PublicKey)
+					spkix, _ := x509.MarshalPKIXPublicKey(spub)
+					self := vkit.MintLeaf(nil, vkit.LeafSpec{Pub: spub, SKI: rapid.SampledFrom([][]byte{spkix, victim.a.CertPkix}).Draw(t, "strangerSki"), CN: victim.a.KeyID, EKU: []x509.ExtKeyUsage{x509.ExtKeyUsageClientAuth}, NB: time.Now().Add(-time.Hour), NA: time.Now().Add(time.Hour), SelfSign: sk, IsCA: true})
+					b := victim.certs[1]
+					chain, key = [][]byte{self, b.CertificateDer, b.CaCertificateDer}, sk
 				case "other-node-chain":
 					src := unregistered
 					if other != nil {
@@ -450,7 +460,8 @@ func TestProp_Listener(t *testing.T) {
 						}
 					}
 					if o.Panic != nil {
-						t.Fatalf("Accept panicked: %v\n%s", o.Panic, o.Stack)
+						vkit.Violate(t, prop, "C02/accept-panicked", fmt.Sprintf("Accept panicked instead of rejecting the client: %v", o.Panic), map[string]any{"client": v, "history": hist, "stack": o.Stack})
+						return
 					}
 				}
 				v.Got = map[bool]string{true: "authenticated", false: "not-authenticated"}[got]
